@@ -116,11 +116,20 @@ def _f_for_target_1tuple(c):
 
 def _f_redirect_ge(c):
     tk = c.toks
-    for a, b in zip(tk, tk[1:]):
-        if b.type == tokenize.OP and b.string in (">=", ">>=") and a.end == b.start and a.string in REDIR_NAMES \
-                and a.type in (tokenize.NAME, tokenize.NUMBER):
+    for i in range(len(tk) - 1):
+        a, b = tk[i], tk[i + 1]
+        if not (a.type in (tokenize.NAME, tokenize.NUMBER) and a.string in REDIR_NAMES and b.type == tokenize.OP
+                and a.end == b.start):
+            continue
+        if b.string in (">=", ">>="):
             return True
-    # inside f-string replacement fields the tokens are nested in FSTRING tokens on 3.12 as well
+        if b.string in (">", ">>") and i + 2 < len(tk):
+            n = tk[i + 2]
+            # a>print, e>other: the lexer takes a>p / e>o as a redirect token and leaves the rest
+            if n.start == b.end and n.type == tokenize.NAME and len(n.string) >= 2 and n.string[0] in "poe":
+                return True
+            if n.start == b.end and n.type == tokenize.NUMBER and len(n.string) >= 2 and n.string[0] in "12":
+                return True
     return False
 
 
@@ -178,13 +187,14 @@ def _offset(src, lineno, col):
 
 
 def _f_vararg_annotation(c):
-    # def f(a, *args: T, **kw: T)   and   def f(*args: *Ts)
+    # def f(a, *args, **kw: T)   and   def f(*args: *Ts)
     for n in c.nodes(ast.arguments):
-        if n.vararg is not None and n.vararg.annotation is not None:
-            if isinstance(n.vararg.annotation, ast.Starred):
-                return True
-            if n.kwarg is not None and n.kwarg.annotation is not None:
-                return True
+        if n.vararg is not None and isinstance(n.vararg.annotation, ast.Starred):
+            return True
+        if n.vararg is not None and n.kwarg is not None and n.kwarg.annotation is not None and (n.args or n.posonlyargs):
+            return True
+        if n.vararg is not None and n.vararg.annotation is not None and n.kwarg is not None and n.kwarg.annotation is not None:
+            return True
     return False
 
 
@@ -270,18 +280,34 @@ def _dotted(n):
 def _f_decorator_expr(c):
     for n in c.nodes(ast.FunctionDef, ast.AsyncFunctionDef, ast.ClassDef):
         for d in n.decorator_list:
+            if _parenthesised(c, d):
+                return True
             if _dotted(d):
+                if "(" in c.seg(d):
+                    return True          # @(a).b
                 continue
             if isinstance(d, ast.Call) and _dotted(d.func):
+                if "(" in c.seg(d.func) or _parenthesised(c, d.func):
+                    return True          # @((a)).b()
                 continue
             return True
     return False
 
 
 def _f_type_stmt_in_block(c):
+    sig = [t for t in c.toks if t.type not in (tokenize.NL, tokenize.COMMENT, tokenize.INDENT, tokenize.DEDENT)]
     for n in c.nodes(ast.TypeAlias):
         if not isinstance(c.parents.get(n), ast.Module):
             return True
+        start = c.charpos(n.lineno, n.col_offset)
+        end = c.charpos(n.end_lineno, n.end_col_offset)
+        for i, t in enumerate(sig):
+            if t.start == start and i > 0 and sig[i - 1].type != tokenize.NEWLINE:
+                return True      # something (`;`) precedes it on the logical line
+            if t.start >= end:
+                if t.type not in (tokenize.NEWLINE, tokenize.ENDMARKER):
+                    return True  # `;` follows it
+                break
     return False
 
 
@@ -361,8 +387,12 @@ def _f_match_nested_seq(c):
 
 def _f_nfkc(c):
     for t in c.toks:
-        if t.type == tokenize.NAME and unicodedata.normalize("NFKC", t.string) != t.string:
-            return True
+        if t.type == tokenize.NAME:
+            if unicodedata.normalize("NFKC", t.string) != t.string:
+                return True
+            # identifier characters outside what \\w matches (combining marks, variation selectors)
+            if not all(ch == "_" or ch.isalnum() for ch in t.string):
+                return True
     return False
 
 
@@ -456,8 +486,11 @@ def _f_backslash_blank(c):
 def _f_eval_leading_comment(c):
     if c.mode != "eval":
         return False
-    first = c.src.lstrip(" \t")
-    return first.startswith("#") or first.startswith("\n")
+    for line in c.src.split("\n"):
+        st = line.strip()
+        if st == "" or st.startswith("#"):
+            return True
+    return False
 
 
 def _f_match_walrus_subject(c):
@@ -527,14 +560,53 @@ def _f_walrus_in_set(c):
     return False
 
 
+def _f_chained_assign_star(c):
+    for n in c.nodes(ast.Assign):
+        if len(n.targets) < 2:
+            continue
+        for i, t in enumerate(n.targets):
+            if isinstance(t, ast.Tuple) and c.bare_tuple(t) and any(isinstance(e, ast.Starred) for e in t.elts):
+                if i > 0 or not isinstance(t.elts[0], ast.Starred):
+                    return True
+    return False
+
+
+def _f_set_in_set(c):
+    for n in c.nodes(ast.Set):
+        for e in n.elts[:-1]:
+            if isinstance(e, ast.Set) and e.elts:
+                return True
+    return False
+
+
+def _f_list_of_genexp(c):
+    for n in c.nodes(ast.List):
+        if len(n.elts) == 1 and isinstance(n.elts[0], ast.GeneratorExp) and isinstance(n.ctx, ast.Load):
+            return True
+    return False
+
+
+def _f_fs_spec_doubled_brace(c):
+    # CPython 3.12 reads `{{...}}` inside a format spec as a nested replacement field holding a
+    # {...} display; xonsh reads it differently
+    for n in c.nodes(ast.FormattedValue):
+        if isinstance(n.format_spec, ast.JoinedStr):
+            for v in n.format_spec.values:
+                if isinstance(v, ast.FormattedValue):
+                    off = _offset(c.src, v.value.lineno, v.value.col_offset)
+                    if off > 0 and c.src[off - 1] == "{" and c.src[off:off + 1] == "{":
+                        return True
+    return False
+
+
 FINDINGS = {
     # id: (kinds, detail regex, feature, example, what)
     "C01-F01": (("tree-differs",), r"AnnAssign\.simple", _f_annassign_simple, "self.x: int = 1\n",
                 "annotated assignment to a non-name or parenthesised target gets AnnAssign.simple=1 (CPython: 0); the tree does not compile"),
     "C01-F02": (("tree-differs",), r"\.target", _f_for_target_1tuple, "for i, in xs: pass\n",
                 "one-element unparenthesised tuple target of for / comprehension is parsed as the bare name (wrong unpacking semantics)"),
-    "C01-F03": (("reject",), r"code: =", _f_redirect_ge, "if a>=b: pass\n",
-                "a name/number that is also a redirect prefix (a e o all err out 1 2) directly followed by >= or >>= is lexed as a redirect; the text is rejected"),
+    "C01-F03": (("reject",), r"code: ", _f_redirect_ge, "if a>=b: pass\n",
+                "a name/number that is also a redirect prefix (a e o all err out 1 2) directly followed by >= or >>= (or by > and a name starting with p/o/e, e.g. a>print) is lexed as a redirect; the text is rejected"),
     "C01-F04": (("reject",), r"code: \*|unexpected newline", _f_starred_bare_tuple, "x = *a, b\n",
                 "starred element in an unparenthesised tuple on the right of = / augmented = / for-in, or after the first element of a tuple expression statement, is rejected"),
     "C01-F05": (("reject",), r"code: \*", _f_star_in_set, "{a, *b}\n",
@@ -544,7 +616,7 @@ FINDINGS = {
     "C01-F07": (("reject",), r"code: :=", _f_walrus_in_subscript, "x = a[b:=1]\n",
                 "unparenthesised walrus inside a subscript is rejected"),
     "C01-F08": (("reject",), r"code: [:*]", _f_vararg_annotation, "def f(a, *args: T, **kw: T): pass\n",
-                "annotated *args together with annotated **kwargs, and *args: *Ts, are rejected"),
+                "annotated **kwargs after *args when positional parameters precede (or *args is annotated too), and *args: *Ts, are rejected"),
     "C01-F09": (("reject", "tree-differs"), r"code: as|With\.items|withitem", _f_paren_with, "with (a as b, c as d): pass\n",
                 "parenthesised with-items: rejected when an item has `as`; several items / trailing comma are parsed as one tuple-valued item"),
     "C01-F10": (("tree-differs",), r"arguments\.defaults", _f_posonly_default, "def f(a=1, /, b=2): pass\n",
@@ -558,7 +630,7 @@ FINDINGS = {
     "C01-F14": (("reject", "tree-differs"), r"code: |Interactive\.body|Module\.body", _f_decorator_expr, "@a[0]\ndef f(): pass\n",
                 "decorators that are not a dotted name with at most one call (PEP 614 general expressions) are rejected or misparsed"),
     "C01-F15": (("reject", "tree-differs"), r"unexpected newline|code: |^root:", _f_type_stmt_in_block, "def f():\n    type X = int\n",
-                "a `type X = ...` statement inside a block is rejected (indented) or makes the parser return a single-input root (one-line body)"),
+                "a `type X = ...` statement that is not alone on a top-level line (inside a block, before or after `;`) is rejected or makes the parser return a single-input root"),
     "C01-F16": (("reject", "tree-differs"), r"code: (or|and|if)|Starred\.ctx", _f_star_arg_lowprec, "f(*a or b)\n",
                 "*-argument whose value is an unparenthesised or/and/if-else expression is rejected; for not/lambda the Starred node lacks ctx"),
     "C01-F17": (("tree-differs",), r"Subscript\.slice", _f_subscript_1tuple, "d[1,]\n",
@@ -571,8 +643,8 @@ FINDINGS = {
                 "an unparenthesised tuple starting with a {...} display (or a parenthesised one) in statement position is misparsed: `{1}, {2}` becomes the set {1, {2}}"),
     "C01-F21": (("tree-differs",), r"Match", _f_match_nested_seq, "match x:\n    case [1, [2]]: pass\n",
                 "a sequence pattern nested as an element of a sequence pattern is flattened into / dropped from the outer pattern"),
-    "C01-F22": (("tree-differs",), r"\.(id|arg|attr|name)", _f_nfkc, "ʹ = 1\n",
-                "identifiers are not NFKC-normalised as CPython does"),
+    "C01-F22": (("tree-differs", "reject"), r"\.(id|arg|attr|name)|SyntaxError", _f_nfkc, "ʹ = 1\n",
+                "identifiers are not NFKC-normalised as CPython does, and identifier characters that are not alphanumeric (combining marks, variation selectors) are rejected"),
     "C01-F23": (("reject",), r"", _f_fs_named_escape, "f'\\N{DIGIT ONE}'\n",
                 "\\N{...} named escape inside an f-string is rejected"),
     "C01-F24": (("reject",), r"", _f_fs_backslash_brace, "f'\\{a}'\n",
@@ -590,7 +662,7 @@ FINDINGS = {
     "C01-F30": (("reject",), r"", _f_backslash_blank, "x = 1\\\n\ny = 2\n",
                 "a backslash continuation followed by a blank line is rejected"),
     "C01-F31": (("tree-differs", "reject"), r"", _f_eval_leading_comment, "#c\n()",
-                "eval-mode input that starts with a comment or blank line yields a Module root instead of Expression"),
+                "eval-mode input with a comment-only or blank line before or after the expression yields a Module root instead of Expression"),
     "C01-F32": (("reject",), r"code: :=", _f_match_walrus_subject, "match w := x:\n    case y: pass\n",
                 "unparenthesised walrus as match subject is rejected"),
     "C01-F33": (("reject",), r"code: (or|and)", _f_number_keyword, "1or 2\n",
@@ -601,6 +673,14 @@ FINDINGS = {
                 "a single-quoted f-string whose replacement field spans several lines (PEP 701) is rejected when it does not start the line"),
     "C01-F36": (("reject",), r"code: (:=|for)", _f_walrus_in_set, "{a := 1}\n",
                 "unparenthesised walrus as element of a set display / set comprehension / sole generator argument is rejected"),
+    "C01-F37": (("reject",), r"code: [=*]", _f_chained_assign_star, "a, *b = c = 1\n",
+                "chained assignment with an unparenthesised starred tuple target (a, *b = c = 1; c = *a, b = 1) is rejected"),
+    "C01-F38": (("tree-differs",), r"", _f_set_in_set, "{{1}, 2}\n",
+                "a non-empty set display as a non-last element of a set display absorbs the following elements: {{1}, 2} becomes {{1, 2}}"),
+    "C01-F39": (("tree-differs",), r"", _f_list_of_genexp, "[(x for x in y)]\n",
+                "a list display whose only element is a parenthesised generator expression is parsed as a list comprehension"),
+    "C01-F40": (("tree-differs", "reject"), r"", _f_fs_spec_doubled_brace, "f'{a:{{}}}'\n",
+                "a nested replacement field inside a format spec whose expression is a {...} display (CPython reads `{a:{{}}}` that way) is parsed differently"),
 }
 
 
